@@ -63,6 +63,9 @@ M = [
     ("losers-lumped-into-one-group", "votekit/utils.py",
      "    return (tuple(elected), ranking[i:], tiebreak_ranking)",
      "    return (tuple(elected), ((frozenset(c for s_ in ranking[i:] for c in s_),) if i < len(ranking) else ()), tiebreak_ranking)", ["C04"]),
+    ("stv-one-by-one-tie-silently-random-after-round-1", "votekit/elections/election_types/ranking/stv.py",
+     "            ranking_by_fpv, m=1, profile=profile, tiebreak=self.tiebreak\n",
+     "            ranking_by_fpv, m=1, profile=profile, tiebreak=self.tiebreak if prev_state.round_number == 0 else (self.tiebreak or \"random\")\n", ["C02"]),
     ("load-csv-dropna", "votekit/cvr_loaders.py", "df.groupby(ranks, dropna=False)", "df.groupby(ranks, dropna=True)", ["C18"]),
     ("lp-root-omitted", "votekit/metrics/distances.py", "lp_dist = sum ** (1 / p_value)", "lp_dist = sum", ["C19"]),
     ("stv-m-bound-off-by-one", "votekit/elections/election_types/ranking/stv.py",
